@@ -104,6 +104,17 @@ def make_case(rng, i):
         for cb in spec["cbs"].values():
             if not cb["async"]:
                 cb["script"].pop("sends", None)
+    # per-instance hooks: callbacks assigned on ONE listener/model object (e.g. in its __init__); the
+    # object of the same class that belongs to the other machine does not have them (and vice versa)
+    hosts = [p for p in spec["providers"] if p != "sm"]
+    if hosts and rng.random() < 0.35:
+        nms = ["after_transition", "before_transition", "on_enter_state", "on_exit_state"] + [f"on_{e}" for e in spec["events"]]
+        for j in range(rng.randint(1, 3)):
+            host, nm = rng.choice(hosts), rng.choice(nms)
+            if any(cb["name"] == nm and cb["provider"] == host for cb in spec["cbs"].values()):
+                continue
+            spec["cbs"][f"ci{j}"] = {"name": nm, "provider": host, "kind": "method", "async": False,
+                                     "inst": rng.choice(["main", "other"]), "script": {"ret": "sent"}}
     early = [p for p in spec["providers"] if p not in ("sm", "model")]
     lst = list(early)
     reattach = 0
@@ -137,7 +148,7 @@ def make_case(rng, i):
                 reattach += 1
         if rng.random() < 0.2:
             if not other_built:
-                o = {"op": "other", "action": "construct", "listeners": [p for p in early if rng.random() < 0.7]}
+                o = {"op": "other", "action": "construct", "listeners": list(early)}
                 if early and rng.random() < 0.4:
                     o["share"] = rng.choice(early)
                 out.append(o)
@@ -160,7 +171,7 @@ def classify(case, rule, detail, log, fault, ck):
         return "late-async-listener-on-sync-machine"
     multi_unless = {g["name"] for t in sc.spec["transitions"] for g in t["guards"]
                     if g["kind"] == "unless" and len(sc.spec["guards"][g["name"]]["providers"]) > 1}
-    if multi_unless and not rule.startswith("C12."):
+    if multi_unless and (not rule.startswith("C12.") or rule.startswith("C12.other-instance:")):
         return "unless-guard-provided-by-several-objects"
     return rule
 
@@ -173,10 +184,34 @@ def signature(case, ck, log, fault):
     pattern = sorted(tuple(sorted(v)) for v in names.values() if len(v) >= 2)
     gp = sorted(tuple(g["providers"]) for g in sc.spec["guards"].values() if len(g["providers"]) > 1)
     mp = sum(1 for e in log if e["k"] == "guard" and len(sc.spec["guards"].get(e["name"], {}).get("providers", [])) > 1)
-    case["_counters"] = {"multi_provider_guard_evals": mp, "reattachments": case["reattach"]}
+    case.setdefault("_counters", {}).update({"multi_provider_guard_evals": mp, "reattachments": case["reattach"]})
     if pattern or gp:
         return [(pattern[:6], gp[:4], case["reattach"] > 0, case["late"], sc.spec["any_async"])]
     return []
+
+
+def extra_check(case, run, log, ck, fault):
+    """The second instance (own objects of the same provider classes, possibly one shared listener) is
+    checked against the reference on its own log."""
+    from vmon.model import check_log
+
+    other_log = getattr(run, "other_log", None)
+    if not other_log:
+        return None
+    shared = next((s_.get("share") for s_ in case["scenario"].steps if s_.get("op") == "other" and s_.get("share")), None)
+
+    def prep(c):
+        c.role = "other"
+        c.shared_provider = shared
+
+    rej, ck2 = check_log(case["scenario"].spec, other_log, prepare=prep)
+    case.setdefault("_counters", {})["other_instance_events"] = ck2.stats["events_executed"] + ck2.stats["not_allowed"] + ck2.stats["ignored"]
+    if rej is not None:
+        return ("C12.other-instance:" + rej.rule, "the second instance deviates from the reference: " + rej.detail, None)
+    softs = getattr(ck2, "softs", [])
+    if softs:
+        return ("C12.other-instance:" + softs[0][0], softs[0][1], None)
+    return None
 
 
 def plan(tier, seed):
@@ -255,7 +290,7 @@ def run_twins(desc):
 def run_shard(desc):
     if desc.get("twins"):
         return run_twins(desc)
-    return F.explore(desc, make_case, owns, signature, classify=classify)
+    return F.explore(desc, make_case, owns, signature, classify=classify, extra_check=extra_check)
 
 
 def replay(witness):
